@@ -8,6 +8,7 @@
    class `deep`. The classes listed in `deepSet` are reported as `deep` as well (same table as the harness). -/
 import MW.Model.Api
 import MW.Model.ApiLedger
+import MW.Model.ApiFollow
 import MW.Model.Amount
 import MW.Drv.Led
 namespace MW.Drv.Api
@@ -693,6 +694,12 @@ def walletsView (st : St) : String :=
 def usesWallet (op : String) : Bool :=
   ["addr", "bal", "abal", "utxos", "sbu", "addrs", "shist", "bhist", "hsbu", "shistp", "bhistp", "wseq"].contains op
 
+/-- model column of a delivery: the ledger model's class, marked when the follower skeleton run ends in another one -/
+def withSkel (o : String) (skel : String) : String :=
+  let (m, rest) := splitOn1 o '\t'
+  if m = skel then o else
+  (m ++ "|skel:" ++ skel.replace " " "_") ++ (if o.contains '\t' then "\t" ++ rest else "")
+
 def baseStep (st : St) (args : List String) : St × String :=
   match args with
   | ["wallets"] => (st, walletsView st)
@@ -710,10 +717,22 @@ def baseStep (st : St) (args : List String) : St × String :=
   | ["tx", t, u, ins, outs] =>
     let (l, o) := Led.step st.led ["tx", t, u, ins, scaleOuts outs]
     ({ st with led := l }, o)
-  | ["recvtx", _] =>
+  | ["recvtx", t] =>
     -- spec of the follower's unconfirmed path: the transaction is processed to a result (no panic)
     let (l, o) := Led.step st.led args
+    -- the follower SKELETON (tail of proccessReceivedTx: getReadyWallets, filterTx) run with the oracle answered from
+    -- the ledger model must end in the same class as the ledger model (and as the real follower)
+    let o := match AMap.get st.led.txs t with
+      | some tx => withSkel o (Model.ApiFollow.recvClass (Led.ctx st.led) st.led.store st.led.vol tx)
+      | none => o
     ({ st with led := l }, if o.contains '\t' then o else o ++ "\t" ++ o)
+  | ["notify", b] =>
+    let (l, o) := Led.step st.led args
+    -- the same for processConnectedBlock (extend / reorg; disconnectBlock, filterBlock, filterTx, …)
+    let o := match AMap.get st.led.node.known b with
+      | some blk => withSkel o (Model.ApiFollow.blockClass (Led.ctx st.led) st.led.store st.led.vol blk)
+      | none => o
+    ({ st with led := l }, o)
   | op :: w :: _ =>
     let st1 := if usesWallet op then useEffect st w else st
     let (l, o) := Led.step st1.led args
